@@ -155,6 +155,7 @@ func runProperty(w *World, p *propDef, tier, verif string, seed int, loadS float
 	c := runRules(w, p, tier)
 	if tier == "thorough" && p.Variants != nil {
 		runSelfTest(c, p, verif)
+		runNeutralTest(c, p, verif)
 	}
 	wall := loadS + time.Since(t1).Seconds()
 	return c.finish(verif, seed, wall, p.Explanation, p.Assumptions)
